@@ -61,6 +61,36 @@ CHECKS = {
                 text="strings of each exact length (0..1 quick, 0..2/3 thorough, all of Unicode) in every position denote themselves or are rejected; all integers accepted fit their C++ type; float literal class included in the C++ grammar; several equal-valued literals of different kind keep value and kind",
                 note="float value fidelity trusted; re.sub shim for CrossHair is part of the trusted base and self-checked",
                 ref="DESIGN.md 3/C18"),
+    "C07": dict(engine=TV, cat="translation_validation",
+                technique="histories of <=2 operations replayed in freshly forked processes; probe package compared with the fresh-process package by canonical text, otherwise by SMT equivalence (z3) of the two C++ packages for all events",
+                text="for every enumerated history (success/failure x declaring method types, enums, collections, C++ functions, job scripts, injected code, docker metadata x same/new executor) and six registry-sensitive probes: same package (or same refusal) as in a fresh process",
+                note="histories longer than 2 only through the registry observation after each operation (reported, not claimed); declared names concrete",
+                ref="DESIGN.md 3/C07"),
+    "C08": dict(engine=TV, cat="translation_validation",
+                technique="variant enumeration (qastle round trip, capture-avoiding alpha-renamings incl. shadowing and special names, MetaData placement, fused vs separate chains) with canonical-text comparison and SMT equivalence (z3) of differing C++ packages for all events",
+                text="every (query, variant) pair yields the same package up to numbering, or packages proven equivalent in schema, rows and faults for all events up to N; accept/reject agrees",
+                note="'the same' is claimed at the level of observable behaviour; benign textual differences are listed in evidence",
+                ref="DESIGN.md 3/C08"),
+    "C09": dict(engine=CH, cat="other", also=(TV,),
+                technique="CrossHair on process_metadata (unknown/missing metadata_type, unknown declaration keys via a list-backed Mapping) + observed refusal of every grafted unsupported construct",
+                text="solver: all metadata_type strings <=30 chars outside the known set raise, missing type key raises for all key strings, unknown keys raise; observed: ~600 grafts per backend of unsupported constructs into every expression position are all refused",
+                note="the graft half has no input quantifier and is an observation per program, stated as such in evidence",
+                ref="DESIGN.md 3/C09"),
+    "C11": dict(engine=CH, cat="other", also=(TV,),
+                technique="CrossHair through the real add_cpp_function pipeline with symbolic actual-argument texts against a token-based simultaneous whole-word substitution reference + SMT translation validation of call sites",
+                text="for seven hygiene-sensitive (formals, code) shapes and all actual texts within bounds the emitted block equals the reference substitution, isolated in its own block with a fresh result variable; user functions/methods/collection functions and DeltaR compute their meaning at nested, repeated, guarded and aggregated call sites for all events",
+                note="formal names and code lines enumerated (re.compile realises them); actual texts symbolic",
+                ref="DESIGN.md 3/C11"),
+    "C14": dict(engine=CH, cat="other", also=(STR,),
+                technique="CrossHair on inject_code bookkeeping with symbolic names/lines + z3 string equivalence between the Python code jinja2 generates for the real templates and the template source with verbatim lines",
+                text="dedup/conflict/order rules for all names and lines <=2 chars; for every field and template the rendered file is the static text with each line verbatim, once, in order, for all line contents <=3 chars (any characters), in the documented region",
+                note="region map and the escape abstraction are part of the trusted base; translation of generated code cross-validated against the real jinja2 on every run",
+                ref="DESIGN.md 3/C14"),
+    "C17": dict(engine=CH, cat="other",
+                technique="CrossHair on the real LocalDataset classes with a stand-in python_on_whales, deterministic temp dirs and nondeterministic container outcomes",
+                text="file validation, same-directory rule, filelist order, image selection (metadata vs image:tag, symbolic strings), volumes, failure propagation at any chunk, missing result, result copy, temp dir removal - for all combinations within the bounds",
+                note="I/O orchestration code: decision logic under the listed stubs only; template rendering stubbed",
+                ref="DESIGN.md 3/C17"),
     "C12": dict(engine=TV, cat="translation_validation",
                 technique="SMT equivalence (z3) of the emitted call against the documented function name: interpreted rounding/remainder family, distinct uninterpreted functions otherwise; exhaustive over the README table",
                 text="every documented function x {standalone, in arithmetic, in comparison, int argument}: accepted, <cmath> included, value equals the namesake for all argument values",
@@ -73,12 +103,7 @@ CHECKS = {
                 ref="DESIGN.md 3/C13"),
 }
 
-PENDING = {
- "C07": "check under construction", "C08": "check under construction",
-    "C09": "check under construction", "C11": "check under construction",
-    "C14": "check under construction",
-    "C17": "check under construction",
-}
+PENDING = {}
 
 ENGINES = {
     TV: ("vlib/tv", "translation validation: the rendered package is parsed back from disk, its C++ subset executed symbolically (z3, predicated) over a symbolic event and compared with a reference LINQ semantics of the original query; counterexamples are replayed by compiling the real package with clang against generated stubs"),
